@@ -170,6 +170,13 @@ func (m *c10cModel) enabled(ev c08srvEv, enforce bool) bool {
 		}
 		ln, fl, _, _ := c10Frame(ev, s.view, m.connView)
 		return ln >= 0 && fl <= 16384
+	case "DRC": // connection-window-relative frame on a stream that takes no DATA (any more), see c10cDRC
+		s := idx()
+		if !s.opened || s.srvOpen {
+			return false
+		}
+		n := m.connView + ev.arg(1)
+		return n >= 0 && n <= 16384 && (n <= m.connView || enforce)
 	case "R":
 		s := idx()
 		return s.app == 1 && !s.closed
@@ -209,8 +216,11 @@ func (m *c10cModel) apply(ev c08srvEv) {
 		} else {
 			s.srvOpen = true
 		}
-	case "D", "DR", "DRP":
+	case "D", "DR", "DRP", "DRC":
 		s := idx()
+		if ev.K == "DRC" {
+			ev = c10cDRC(ev, m.connView)
+		}
 		ln, fl, _, end := c10Frame(ev, s.view, m.connView)
 		if fl > m.connView || (s.srvOpen && fl > s.view) {
 			m.terminal = true
@@ -259,6 +269,17 @@ func (m *c10cModel) apply(ev c08srvEv) {
 	case "CANCEL", "RST", "RD":
 		m.kill(idx())
 	}
+}
+
+// c10cDRC resolves DRC(s, rel) into the fixed unpadded frame D(s, w+rel, 0, 0)
+// where w is the sender's view of the CONNECTION receive window alone. DRC is
+// only sent on a stream the client opened that takes no DATA (any more):
+// cancelled / body closed (the Transport has reset and forgotten it; DATA that
+// was in flight is legal, RFC 9113 §5.1 "closed"), before the response
+// HEADERS, after END_STREAM or after the server's own RST_STREAM. Such a frame
+// is discarded but still counts against the connection window (§6.9).
+func c10cDRC(ev c08srvEv, connView int64) c08srvEv {
+	return c08srvEv{K: "D", A: []int64{ev.arg(0), connView + ev.arg(1), 0, 0}}
 }
 
 func (m *c10cModel) clone() *c10cModel { c := *m; return &c }
@@ -504,6 +525,8 @@ func c10cliRunCase(w *vx.W, t testing.TB, cs c09cliCase, mode c10sMode) (res c10
 		var expectFC *c10cStream
 		expectFCConn := false
 		var sentInWindow *c10cStream
+		closedSit := ""           // DRC only: why the stream takes no DATA
+		sentInConnWindow := false // DRC only: frame inside the connection window (and the stream's last advertised window)
 		switch ev.K {
 		case "REQ":
 			if len(env.reqs) >= 2 || mon.goaway {
@@ -522,10 +545,18 @@ func c10cliRunCase(w *vx.W, t testing.TB, cs c09cliCase, mode c10sMode) (res c10
 				kv = []string{"content-length", fmt.Sprint(s.cl)}
 			}
 			env.respHeaders(id, s.respEnd, kv...)
-		case "D", "DR", "DRP":
+		case "D", "DR", "DRP", "DRC":
 			if s == nil {
 				applied = false
 				break
+			}
+			relConn := ev.K == "DRC" // sized against the connection window on a stream that takes no DATA
+			if relConn {
+				if n := mon.connView + ev.arg(1); s.srvOpen() || n < 0 || n > 16384 {
+					applied = false
+					break
+				}
+				ev = c10cDRC(ev, mon.connView)
 			}
 			ln, fl, pad, end := c10Frame(ev, s.view, mon.connView)
 			if ev.K != "D" {
@@ -535,9 +566,24 @@ func c10cliRunCase(w *vx.W, t testing.TB, cs c09cliCase, mode c10sMode) (res c10
 				}
 			}
 			inWin := fl <= mon.connView && (!s.srvOpen() || fl <= s.view)
-			if !inWin && (!mode.enforce || !s.srvOpen()) {
+			if !inWin && (!mode.enforce || (!s.srvOpen() && !relConn)) {
 				applied = false
 				break
+			}
+			if relConn {
+				// the abstract situation of the stream the frame is sent on
+				switch {
+				case s.cliRST || s.cancelled:
+					closedSit = "stream-reset-by-client"
+				case s.srvRST:
+					closedSit = "stream-reset-by-server"
+				case !s.respSent:
+					closedSit = "stream-before-HEADERS"
+				default:
+					closedSit = "stream-after-END_STREAM"
+				}
+				res.refundPaths["D-conn-window-relative-on-"+closedSit] = true
+				sentInConnWindow = inWin && fl <= s.view && !mon.goaway
 			}
 			switch {
 			case !inWin:
@@ -677,16 +723,33 @@ func c10cliRunCase(w *vx.W, t testing.TB, cs c09cliCase, mode c10sMode) (res c10
 			return
 		}
 		if mode.enforce {
+			// The Transport fails the whole connection with the error; its
+			// GOAWAY frame is written but not flushed before the close.
+			readerFC := func() bool {
+				if rerr, done := env.tc.cc.C09cliReaderErr(); done {
+					if ce, isCE := rerr.(ConnectionError); isCE && ErrCode(ce) == ErrCodeFlowControl {
+						return true
+					}
+				}
+				return false
+			}
 			if expectFC != nil {
 				ok := (expectFC.cliRST && expectFC.cliRSTCode == ErrCodeFlowControl) || (mon.goaway && mon.goawayCode == ErrCodeFlowControl)
-				if !ok {
-					// The Transport fails the whole connection with the error; its
-					// GOAWAY frame is written but not flushed before the close.
-					if rerr, done := env.tc.cc.C09cliReaderErr(); done {
-						if ce, isCE := rerr.(ConnectionError); isCE && ErrCode(ce) == ErrCodeFlowControl {
-							ok = true
-							res.fcErrSeen = true
-						}
+				if !ok && readerFC() {
+					ok = true
+					res.fcErrSeen = true
+				}
+				if !ok && closedSit != "" && closedSit != "stream-reset-by-client" {
+					// The frame also violates the stream state machine (DATA before
+					// HEADERS, after END_STREAM, after the server's own RST_STREAM):
+					// which of the two errors wins is not specified, so any
+					// connection error is accepted; what is not accepted is a
+					// connection that carries on beyond its window. (After the
+					// client's RST_STREAM in-flight DATA is legal: strict oracle.)
+					if rerr, done := env.tc.cc.C09cliReaderErr(); mon.goaway {
+						ok = true
+					} else if _, isCE := rerr.(ConnectionError); done && isCE {
+						ok = true
 					}
 				}
 				if !ok {
@@ -694,12 +757,23 @@ func c10cliRunCase(w *vx.W, t testing.TB, cs c09cliCase, mode c10sMode) (res c10
 					if expectFCConn {
 						which = "connection"
 					}
-					w.Failf(P+"enforce/no-flow-control-error/beyond-"+which+"-window", "%s: DATA beyond the advertised %s window was not answered with FLOW_CONTROL_ERROR (stream reset=%v code=%v, goaway=%v code=%v)", ctx, which, expectFC.cliRST, expectFC.cliRSTCode, mon.goaway, mon.goawayCode)
+					trigger := "beyond-" + which + "-window"
+					if closedSit != "" {
+						trigger += "/on-" + closedSit
+					}
+					w.Failf(P+"enforce/no-flow-control-error/"+trigger, "%s: DATA beyond the advertised %s window was not answered with FLOW_CONTROL_ERROR (stream reset=%v code=%v, goaway=%v code=%v)", ctx, which, expectFC.cliRST, expectFC.cliRSTCode, mon.goaway, mon.goawayCode)
 				}
 			}
 			if sentInWindow != nil {
 				if (sentInWindow.cliRST && sentInWindow.cliRSTCode == ErrCodeFlowControl) || (mon.goaway && mon.goawayCode == ErrCodeFlowControl) {
 					w.Failf(P+"enforce/in-window-data-rejected/after-"+mon.lastKind, "%s: DATA inside both advertised windows was answered with FLOW_CONTROL_ERROR", ctx)
+				}
+			}
+			if sentInConnWindow {
+				// DATA on a stream that takes no DATA (any more) is discarded, but inside
+				// the connection window it is not a flow-control violation.
+				if (s.cliRST && s.cliRSTCode == ErrCodeFlowControl) || (mon.goaway && mon.goawayCode == ErrCodeFlowControl) || readerFC() {
+					w.Failf(P+"enforce/in-window-data-rejected/on-"+closedSit, "%s: DATA inside the advertised connection window (and the stream's last advertised window) was answered with FLOW_CONTROL_ERROR (stream reset code=%v, goaway=%v code=%v)", ctx, s.cliRSTCode, mon.goaway, mon.goawayCode)
 				}
 			}
 		}
